@@ -191,8 +191,11 @@ func ruleR11a(h *H) {
 }
 
 func ruleR11b(h *H) {
-	const rule = "R11b"
-	h.Rule(rule, "K6", "key-ordering decisions outside the engine use compare.CompareWithSlash: heap Less methods and the response selection of the client, the secondary-index walk of the server; no bytewise ordering of strings in those packages", 4)
+	h.Rule("R11b", "K6", "key-ordering decisions outside the engine use compare.CompareWithSlash: heap Less methods and the response selection of the client, the secondary-index walk of the server; no bytewise ordering of strings in those packages", 4)
+	ruleR11bInto(h, "R11b")
+}
+
+func ruleR11bInto(h *H, rule string) {
 	cmpSlash := ir.Callee{Pkg: "common/compare", Recv: "", Name: "CompareWithSlash"}
 	// (1) Less methods in the client package
 	n := 0
